@@ -15,11 +15,13 @@ void h_race_fibre_reset(void)
 
 void h_race_fibre_names(void (*name)(const volatile void *, size_t, const char *))
 {
+#ifndef VERIF_BLACKBOX   /* field names are cosmetic: without them a location prints as kernel+<offset> */
 	name(&kernel.atomic_runq.num_free, sizeof kernel.atomic_runq.num_free, "runq.num_free");
 	name(&kernel.atomic_runq.sendp, sizeof kernel.atomic_runq.sendp, "runq.sendp");
 	name(&kernel.atomic_runq.full_flags, sizeof kernel.atomic_runq.full_flags, "runq.full_flags");
 	name(&kernel.atomic_runq.receivep, sizeof kernel.atomic_runq.receivep, "runq.receivep");
 	name(&kernel.taint_flags, sizeof kernel.taint_flags, "kernel.taint_flags");
+#endif
 	name(&kernel, sizeof kernel, "kernel");
 	name(atomic_runq_buf, sizeof atomic_runq_buf, "runqbuf");
 }
